@@ -47,6 +47,7 @@ type stringerVal struct{ s string }
 func (s stringerVal) String() string { return s.s }
 
 type serverWorld struct {
+	serveYields int // scheduling points before Serve is called
 	cancelOf map[string]context.CancelFunc // per request prefix (direct callers with ReqSc.Ctx == 2)
 	x                *X
 	s                *simrt.Sim
@@ -233,6 +234,9 @@ func (w *serverWorld) startServerWith(serverEP func(name string) simnet.EP, acce
 		configure(w.srv)
 	}
 	w.s.Spawn("serve", func() {
+		for i := 0; i < w.serveYields; i++ {
+			w.s.YieldNow("serve-dally")
+		}
 		w.serveErr = w.srv.Serve()
 		w.serveReturned = true
 		w.s.Eventf("serve returned %v", w.serveErr)
@@ -349,6 +353,9 @@ func buildRequest(rs *ReqSc, prefix string) *kmip.RequestMessage {
 		var bi kmip.RequestBatchItem
 		if it.Op == "unrouted" {
 			bi = kmip.RequestBatchItem{Operation: kmip.OperationDestroy, RequestPayload: &payloads.DestroyRequestPayload{UniqueIdentifier: id + "|" + it.Tok}}
+		} else if it.Op == "unknown" {
+			// an operation code the library has never heard of, with an opaque payload
+			bi = kmip.RequestBatchItem{Operation: kmip.Operation(0x7E), RequestPayload: kmip.NewUnknownPayload(kmip.Operation(0x7E), ttlv.Value{Tag: 0x420094, Value: id + "|" + it.Tok})}
 		} else if it.Op == "discover" {
 			// answered by the executor itself: no handler runs, the item succeeds
 			bi = kmip.RequestBatchItem{Operation: kmip.OperationDiscoverVersions, RequestPayload: &payloads.DiscoverVersionsRequestPayload{}}
@@ -371,7 +378,7 @@ func buildRequest(rs *ReqSc, prefix string) *kmip.RequestMessage {
 
 // itemFails tells whether the scripted outcome of an item is a failure (error or panic).
 func itemFails(it ItemSc) bool {
-	if it.Op == "unrouted" || it.Ext == "critical" {
+	if it.Op == "unrouted" || it.Op == "unknown" || it.Ext == "critical" {
 		return true
 	}
 	if it.Op == "discover" {
@@ -388,7 +395,7 @@ func itemFails(it ItemSc) bool {
 
 // itemRunsHandler: does the handler run at all for this item (when it is reached)?
 func itemRunsHandler(it ItemSc) bool {
-	return it.Op != "unrouted" && it.Op != "discover" && it.Ext != "critical"
+	return it.Op != "unrouted" && it.Op != "unknown" && it.Op != "discover" && it.Ext != "critical"
 }
 
 type netConn = net.Conn
